@@ -50,6 +50,51 @@ def run(ctx):
         finality = None
     if finality is not None:
         finality.check(ctx)
+    tables_stable(ctx)
+
+
+def tables_stable(ctx):
+    """the status tables are module-level dicts shared by every association of the process: they must still say what
+    they said at import after the service classes have been used, whatever statuses handlers and peers came up with
+    (a table that learns an entry at run time stops agreeing with code_to_category)"""
+    import copy
+
+    from pynetdicom import status as st
+
+    from harness import scp_driver as sd
+
+    def snap():
+        return {n: copy.deepcopy(getattr(st, n)) for n in sorted(vars(st)) if n.endswith("_STATUS") and isinstance(getattr(st, n), dict)}
+
+    before = snap()
+    S = sd.services()
+    ds = ["ds", 1, False, None, True, True]
+    n_runs = 0
+    for name, svc in S.items():
+        if svc["op"] in ("scp.get", "scp.move"):
+            for outcome in ("su", "wa", "fa", "ex3", "ex4", "ca"):
+                head = [["y", ["dest", "ok"], 0]] if svc["op"] == "scp.move" else []
+                h = ["gen"] + head + [["y", ["s", ["i", 2]], 0], ["y", ["p", ["i", 0xFF00], ds, outcome], 0], ["y", ["p", ["i", 0xFF00], ["ds", 2, False, None, True, True], "su"], 0]]
+                sd.run_scp(svc, h)
+                n_runs += 1
+        elif svc["op"] in ("scp.echo", "scp.store", "scp.find"):
+            for code in (0x0000, 0xB008, 0x0001, 0xFF00, 0xD123, 0xFFF0):
+                h = ["fv", ["s", ["i", code]], 0] if svc["op"] != "scp.find" else ["gen", ["y", ["s", ["i", code]], 0]]
+                try:
+                    sd.run_scp(svc, h)
+                except Exception:
+                    pass
+                n_runs += 1
+    after = snap()
+    case = ["tables-after-use", n_runs]
+    ctx.case(case, nontrivial=True, kind="tables-after-use")
+    for n in before:
+        if before[n] != after.get(n):
+            changed = {hex(k): v for k, v in after[n].items() if before[n].get(k) != v}
+            gone = [hex(k) for k in before[n] if k not in after[n]]
+            bad = [hex(k) for k, v in after[n].items() if isinstance(k, int) and v[0] != st.code_to_category(k)]
+            ctx.fail(f"table-changed-at-run-time:{n}", f"{n} changed while the service classes were used: new/changed {changed}, removed {gone}; "
+                     f"entries now disagreeing with code_to_category: {bad}", case)
 
 
 def replay(ctx, case):
